@@ -214,8 +214,12 @@ def run_unit(unit, tier="quick", want_canary=True):
     res.fns = fns
     res.trusted = scan_trusted(text)
     extra = []
-    if tier == "thorough":
+    base_rl = (meta or {}).get("rlimit")
+    if base_rl:
+        extra = ["--rlimit", str(base_rl)]          # the unit states its own resource limit (//@UNIT rlimit=)
+    elif tier == "thorough":
         extra = ["--rlimit", "40"]
+    retry_rl = str(max(40, 2 * (base_rl or 0)))
     with concurrent.futures.ThreadPoolExecutor(max_workers=2) as ex:
         f1 = ex.submit(run_verus, gen, extra)
         f2 = ex.submit(run_verus, cgen, extra) if want_canary else None
@@ -244,7 +248,7 @@ def run_unit(unit, tier="quick", want_canary=True):
     # retry definite failures once with a larger resource limit and another seed: they must persist
     hard = [e for e in errors if not (e["fninfo"] is not None and e["fninfo"].known)]
     if hard and res.status == "ok" and tier != "thorough":
-        cmd2, js2, diags2, fatal2, _ = run_verus(gen, ["--rlimit", "40", "--smt-option", "smt.random_seed=7"])
+        cmd2, js2, diags2, fatal2, _ = run_verus(gen, ["--rlimit", retry_rl, "--smt-option", "smt.random_seed=7"])
         errors2, und2 = classify(diags2, fns, gen_lines)
         keep = []
         for e in errors:
@@ -253,7 +257,7 @@ def run_unit(unit, tier="quick", want_canary=True):
             elif any(e2["fn"] == e["fn"] and e2["line"] == e["line"] and e2["msg"] == e["msg"] for e2 in errors2):
                 keep.append(e)
             else:
-                res.verus.setdefault("unstable", []).append(f"{e['fn']}: {e['msg']} (discharged with rlimit 40, seed 7)")
+                res.verus.setdefault("unstable", []).append(f"{e['fn']}: {e['msg']} (discharged with rlimit {retry_rl}, seed 7)")
         errors = keep
         if und2 and not undecided:
             res.status = "undecided"
